@@ -280,6 +280,20 @@ def extended_scenarios():
         if wrong or "_get" not in defined or "get" in defined:
             failures.append({"internal": True, "what": "an unlisted rpc (the operation polling rpc included) is not marked internal / a listed one is",
                              "wrong": wrong, "all": marks, "operations_client_defines": sorted(d for d in defined if "get" in d)})
+        # every entry point of an rpc - the `<rpc>_unary` variant of extended-operation rpcs included - carries the underscore iff the rpc is unlisted
+        cases += 1
+        from gapic.utils import to_snake_case
+        for s_ in api.services.values():
+            text = next(f.content for f in res.file if f.name.endswith(f"services/{to_snake_case(s_.name)}/client.py"))
+            defs = set(re.findall(r"^    def (\w+)\(", text, re.M))
+            for m in s_.methods.values():
+                listed = f"{s_.name}.{m.name}" == "Networks.Insert"
+                base = to_snake_case(m.name)
+                for ep in [base] + ([base + "_unary"] if m.operation_service else []):
+                    want, other = (ep, "_" + ep) if listed else ("_" + ep, ep)
+                    if want not in defs or other in defs:
+                        failures.append({"internal": True, "what": "entry point of an rpc: leading underscore iff the rpc is unlisted", "service": s_.name, "rpc": m.name,
+                                         "expected": want, "must_not_exist": other, "defined": sorted(d for d in defs if base in d)})
         names = {s_.name: (s_.client_name, s_.async_client_name) for s_ in api.services.values()}
         for sn, (cn, an) in names.items():
             all_internal = any(m.is_internal for m in api.services[next(k for k, v in api.services.items() if v.name == sn)].methods.values())
